@@ -208,7 +208,7 @@ theorem validUpToF_utf8 {d : Bytes} (h : Utf8 d) : ∀ f, d.length ≤ f → val
       simp; omega
 
 /-- `Tokenizer::new` on well-formed UTF-8 keeps the whole text -/
-theorem new_utf8 (bs : Bytes) (h : Utf8 bs) : State.new bs = ⟨bs, false, 1, 1⟩ := by
+theorem new_of_utf8 (bs : Bytes) (h : Utf8 bs) : State.new bs = ⟨bs, false, 1, 1⟩ := by
   have hv : validUpTo bs = bs.length := validUpToF_utf8 h _ (Nat.le_refl _)
   simp [State.new, hv]
 
@@ -230,7 +230,7 @@ theorem tokens_single (lit : Bytes) (hu : Utf8 lit) (t : Tok) (l c : Nat)
     (h : nextToken ⟨lit, false, 1, 1⟩ = .tok ⟨1, 1, t⟩ ⟨[], false, l, c⟩) :
     tokens lit = .ok ⟨[⟨1, 1, t⟩], none, l, c⟩ := by
   unfold tokens
-  rw [new_utf8 lit hu, run, h]
+  rw [new_of_utf8 lit hu, run, h]
   simp only
   rw [run, nextToken_ended]
   simp [Out.push]
@@ -239,6 +239,6 @@ theorem tokens_error (lit : Bytes) (hu : Utf8 lit) (e : LexErr) (s' : State)
     (h : nextToken ⟨lit, false, 1, 1⟩ = .err e s') :
     tokens lit = .ok ⟨[], some e, s'.line, s'.col⟩ := by
   unfold tokens
-  rw [new_utf8 lit hu, run, h]
+  rw [new_of_utf8 lit hu, run, h]
 
 end Trion.Lex
